@@ -12,6 +12,7 @@ Input lines (doubles as 16 hex digits of the bit pattern, converted to `Rat` exa
   matrix                                    → ROW lines (sparse, dense column index) and a DELTA line
   check <t> X <x…> MIN <…> MAX <…>          → CHECK line (checkModel and the failing clauses)
   search <nph> <nsol> <minimal> <range> <forced> <feas:nz>*   → SEARCH line
+  unc ROWS (<master> <primary>)* DFLT <hex>* (ENT e|r <id> <k> <hex>*k)*   → UNC line (propagateUnc per row)
 -/
 namespace Driver.Inverse
 open PhreeqcVerif PhreeqcVerif.Util PhreeqcVerif.Inverse
@@ -152,6 +153,25 @@ def handle (s : PState) (line : String) : PState × List String :=
     let st := search o c
     let sh (l : List Nat) := " ".intercalate (l.map toString)
     (s, [s!"SEARCH reported {sh st.reported} | good {sh st.good} | minimal {sh st.minimal} | nbad {st.bad.length} calls {st.calls}"])
+  | "unc" :: rest =>
+    -- unc ROWS <m> <p> … DFLT <hex> … ENT e|r <id> <k> <hex>*k …
+    let rec rowsOf : List String → List RowId × List String
+      | "DFLT" :: t => ([], t)
+      | m :: p :: t => let (r, t') := rowsOf t; (⟨natOf m, natOf p⟩ :: r, t')
+      | t => ([], t)
+    let (rows, afterRows) := rowsOf (rest.drop 1)
+    let dflt := (afterRows.takeWhile (· != "ENT")).map ratOfHex
+    let rec entsOf (fuel : Nat) : List String → List BalEntry
+      | "ENT" :: kind :: id :: k :: t =>
+        match fuel with
+        | 0 => []
+        | f + 1 =>
+          let n := natOf k
+          ⟨if kind == "e" then .element (natOf id) else .row (natOf id), (t.take n).map ratOfHex⟩ :: entsOf f (t.drop n)
+      | _ => []
+    let ents := entsOf rest.length (afterRows.dropWhile (· != "ENT"))
+    let u := propagateUnc rows dflt ents
+    (s, ["UNC " ++ " ".intercalate ((List.range rows.length).map fun i => ",".intercalate ((u i).map hexOfRat))])
   | [] => (s, [])
   | _ => (s, ["bad-line " ++ line])
 
